@@ -16,7 +16,7 @@ RULE = ('text: lines "id SEP name [SEP anything]" joined by \\n or \\r\\n, with/
         'parsed again after the caller edited the first mapping; big_file: a table of 70000 lines (more than 2 MiB) whose ids repeat 50000 lines later. '
         'table: event streams from the scenario builder, written as a v2 file and decoded through PyKdebugParser with a '
         'supplied table: (a) renumbering: the stream re-encoded under an injective renumbering sigma (new ids partly '
-        'colliding with bundled ids of OTHER names, partly moved into class 7 and its subclasses 0x0700/0x0701) and decoded under sigma(T) gives the same trace texts, and the '
+        'colliding with bundled ids of OTHER names, partly moved into class 7 and its subclasses 0x0700/0x0701) and decoded under sigma(T) gives the same trace texts and the same callstack listing, and the '
         'event listing shows "name (hex(sigma(id)))"; (b) removal: names removed from T are listed as bare hex and '
         'decode like the stream with those events deleted; (c) the empty table decodes nothing and lists only bare hex; (d) a name listed under a second id is decoded under both; '
         '(e) a listing requested under a table and consumed after other requests on the same object still uses its table. '
@@ -147,7 +147,18 @@ def decode(blob, table):
     p2 = PyKdebugParser()
     p2.show_timestamp = p2.show_process = p2.show_tid = p2.show_func_qual = p2.show_args = False
     kev = [l.strip() for l in p2.formatted_kevents(BudgetReader(blob), trace_codes=table)]
-    return traces, kev
+    return traces + ['callstack: ' + str(c) for c in callstack_lines(blob, table)], kev
+
+
+def callstack_lines(blob, table):
+    """the callstack listing under the same supplied table (sampler and image records are decoded by name, too)"""
+    import inspect
+    from pykdebugparser.pykdebugparser import PyKdebugParser
+    p = PyKdebugParser()
+    p.show_timestamp = p.show_process = p.show_tid = False
+    if 'trace_codes' not in inspect.signature(p.formatted_callstacks).parameters:
+        return []
+    return list(p.formatted_callstacks(BudgetReader(blob), trace_codes=table))
 
 
 def prop_table(ctx, case):
